@@ -34,7 +34,7 @@ Definition R (cls : string) (s : spelling) : leaf := resolve tables false FUEL c
 (* ---------------- part 1: all spellings of one operation on one input.
    (class, operation label, unary?, [(spelling, outcome id, outcome kind)])
    outcome ids name the equivalence classes of the canonical results computed by the harness. *)
-Definition agree_case := (string * string * bool * list (spelling * Z * Z))%type.
+Definition agree_case := (string * string * bool * list (spelling * (Z * Z) * Z))%type.
 
 (* does the observed kind contradict an error / stub leaf predicted by the model? *)
 Definition leaf_kind_ok (l : leaf) (k : Z) : bool :=
@@ -48,20 +48,25 @@ Definition leaf_kind_ok (l : leaf) (k : Z) : bool :=
 
 Definition is_stub (l : leaf) : bool := match l with LfStub _ => true | _ => false end.
 
-Fixpoint pairs_code (cls op : string) (l : list (leaf * Z * Z)) : Z :=
+Definition has_coerced (l : leaf) : bool := match l with LfCoerced _ => true | _ => false end.
+
+(* outcome ids come in pairs: (full, content).  `content` identifies shape, dtype, fill value, nnz, coordinates and
+   stored data after conversion to COO; `full` additionally the array type and its compressed axes. *)
+Fixpoint pairs_code (cls op : string) (l : list (leaf * (Z * Z) * Z)) : Z :=
   match l with
   | [] => 0
-  | (lf, id, k) :: r =>
+  | (lf, (idf, idc), k) :: r =>
       let c := fold_left (fun acc e =>
-                 let '(lf', id', k') := e in
+                 let '(lf', (idf', idc'), k') := e in
                  if negb (acc =? 0) then acc
-                 else if id =? id' then 0
+                 else if idf =? idf' then 0
                  else if leaf_eqb lf lf' then 1                                   (* same computation, different outcome *)
                  else if is_stub lf || is_stub lf' then 3                           (* an abstract stub (returns None) is reached *)
-                 else if negb (clause_not_coerced cls op) then 4
+                 else if has_coerced lf || has_coerced lf' then 4                   (* a wrapper converts its receiver first *)
                  else if is_exc k && is_exc k' then 5                              (* both raise, different class *)
                  else if (is_exc k && is_error_leaf lf) || (is_exc k' && is_error_leaf lf') then 10   (* the method / attribute does not exist on this format *)
-                 else if negb (clause_single_algorithm cls op) then 2
+                 else if negb (idc =? idc') then 12                                (* two code paths, different CONTENT (values or stored pattern) *)
+                 else if negb (clause_single_algorithm cls op) then 2              (* two code paths, same content, other array type *)
                  else 6) r 0 in
       if c =? 0 then pairs_code cls op r else c
   end.
@@ -69,7 +74,7 @@ Fixpoint pairs_code (cls op : string) (l : list (leaf * Z * Z)) : Z :=
 (* 0 ok | 9 a spelling is not in the generated class | 7 observed kind contradicts the model's leaf
    | 1 same leaf, different outcome | 11 the same where the class's wrapper fails wrapper_names_ok | 8 the method spelling is sparse and another spelling is not
    | 3 stub | 4 coercing wrapper | 5 exception classes differ | 10 method missing on the format
-   | 2 two algorithms disagree | 6 other *)
+   | 12 two code paths give different content (values, nnz, coordinates) | 2 two code paths, same content, other array type | 6 other *)
 Definition judge_agree (c : agree_case) : Z :=
   let '(cls, op, unary, obs) := c in
   match assoc op op_classes with
